@@ -34,6 +34,8 @@ func F(x int) int { return x }
 
 var V = 1
 
+var Obj = T{X: 1}
+
 const C = 2
 
 type G[P any] struct{ Val P }
@@ -65,6 +67,10 @@ func DotF() int { return 3 }
 var DotV = 4
 
 type DotT struct{ A int }
+
+func (d DotT) DM() int { return d.A }
+
+var DotObj = DotT{A: 1}
 `},
 	{Key: "E", ImportPath: "golang.org/x/foo", PkgPath: "ex.com/self/vendor/golang.org/x/foo", Name: "foo", Src: `package foo
 
@@ -94,6 +100,9 @@ var Snippets = []Snippet{
 	{[]string{"A", "B"}, "func ab${N}() int {\n\treturn ${A}F(${B}F2())\n}"},
 	{[]string{"A", "C"}, "var ac${N} = map[${C}K]${A}T{${C}One: {X: 1}}"},
 	{nil, "func local${N}() int {\n\tx := len(\"abc\")\n\tvar y int = x\nL:\n\tfor y > 0 {\n\t\ty--\n\t\tcontinue L\n\t}\n\treturn y + helper()\n}"},
+	{[]string{"A"}, "func sel${N}() int {\n\treturn ${A}Obj.X + ${A}Obj.M()\n}"},
+	{[]string{"A"}, "var mexp${N} = ${A}T.M"},
+	{[]string{"D"}, "func dsel${N}() int {\n\tf := ${D}DotT.DM\n\treturn ${D}DotObj.A + ${D}DotObj.DM() + f(${D}DotObj)\n}"},
 	{[]string{"A"}, "func shadow${N}() int {\n\tV := struct{ F int }{F: 1}\n\treturn V.F + ${A}C\n}"},
 }
 
